@@ -686,6 +686,7 @@ var allOps = []encrypt.FilterOperation{encrypt.NoOperation, encrypt.RedactOperat
 func runEncrypt(rc *RunCtx, prop string) {
 	tp := rc.Tape
 	sim := rc.Sim
+	rc.UnorderedDigest = true
 	// configuration
 	overrides := map[encrypt.DataClassification]encrypt.FilterOperation{}
 	for _, cls := range []encrypt.DataClassification{encrypt.PublicClassification, encrypt.SensitiveClassification, encrypt.SecretClassification} {
@@ -785,6 +786,9 @@ func runEncrypt(rc *RunCtx, prop string) {
 				}
 				payload, top = info, "*struct+eventinfo"
 			default:
+				if prop == "C16" && kind == 2 {
+					kind = 0 // C16 is about keys, not shapes: the by-value struct (known C09 finding) is left out
+				}
 				payload, top = g.payload(kind, depth)
 			}
 			// an independent copy, built from the same draws, for the before/after comparison
@@ -809,6 +813,9 @@ func runEncrypt(rc *RunCtx, prop string) {
 				firedBefore = fw.fired
 			}
 			out, err := f.Process(ctx, ev)
+			if err != nil {
+				rc.DigestUnstable = true // the walk stopped at an order-dependent point
+			}
 			descs = append(descs, fmt.Sprintf("payload=%s leaves=%d -> out=%v err=%v", top, len(g.exp), out != nil, err != nil))
 			if len(g.exp) > 3 {
 				rc.NonTrivial = true
@@ -987,6 +994,7 @@ func (n *passNode) Process(ctx context.Context, e *el.Event) (*el.Event, error) 
 func runEncryptObserver(rc *RunCtx) {
 	tp := rc.Tape
 	sim := rc.Sim
+	rc.DigestUnstable = true // the interleaving consumes schedule draws in an order that follows Go's map order inside the walk
 	kv := &keyVersion{n: 1, key: keyBytes(1)}
 	kv.w = newAead(kv.key, "key-1")
 	fw := &failWrapper{Wrapper: kv.w}
@@ -1037,6 +1045,7 @@ func runEncryptObserver(rc *RunCtx) {
 func runEncryptRotateConc(rc *RunCtx) {
 	tp := rc.Tape
 	sim := rc.Sim
+	rc.UnorderedDigest = true
 	versions := []*keyVersion{}
 	mk := func() *keyVersion {
 		nv := &keyVersion{n: len(versions) + 1}
